@@ -60,13 +60,15 @@ def run(ctx):
 
     def one(j):
         cmd = [str(c) for c in j['cmd']]
+        if ctx.violations:
+            return j, None, 'skipped'      # a witness exists: do not spend the stall budget of the remaining runs
         what = '%s/%s %s' % (j['flavour'], j['build'], ' '.join(cmd[1:]))
         r, st = ctx.run_with_stall_rule(lambda: ctx.run(cmd, timeout=14400 if thorough else 900, stall_s=90, tag=j['tag']), what)
         return j, r, st
 
     res = ctx.pmap(one, [j for j in jobs if j['threads'] <= 4], jobs=3) + ctx.pmap(one, [j for j in jobs if j['threads'] > 4], jobs=2)
     for j, r, st in res:
-        if st == 'stalled':
+        if st in ('stalled', 'skipped') or r is None:
             continue
         s = r.summary()
         if not s:
